@@ -32,6 +32,10 @@ let show_trans ts =
   if ts = [] then "-" else
   String.concat ";" (List.map (fun (w, (o, n)) -> (match w with A -> "a" | B -> "b") ^ ":" ^ st_name o ^ ">" ^ st_name n) ts)
 let show s ts = show_node s.p_a ^ "|" ^ show_node s.p_b ^ "|" ^ show_trans ts
+let show_p s probe ts =
+  let t = show_trans ts in
+  let t = if probe = [] then t else String.concat ";" (probe @ (if t = "-" then [] else [t])) in
+  show_node s.p_a ^ "|" ^ show_node s.p_b ^ "|" ^ t
 let who_of c = if c = '0' then A else B
 let arg tok = (* number after ':' *)
   match String.index_opt tok ':' with
@@ -107,10 +111,11 @@ let () =
         let s = ref (finit cs) in
         let out = ref [show !s.f_p []] in
         let ts = ref [] in
+        let probe = ref [] in
         let fe e = let (s', t) = fstep v cs !s e in s := s'; ts := !ts @ t; t in
         let rec finish w = if thrs_of w !s <> [] then (ignore (fe (FMicro (w, O))); finish w) in
         List.iter (fun tok ->
-          ts := [];
+          ts := []; probe := [];
           if String.length tok < 3 then failwith ("bad op " ^ tok);
           let w = who_of tok.[2] in
           (match String.sub tok 0 2 with
@@ -131,8 +136,15 @@ let () =
              ignore (fe (FLost w)); ignore (fe (FMicro (w, O)));
              let t = fe (FMicro (w, O)) in if t = [] then finish w
            | "rl" -> finish w
+           | "xa" | "xu" ->
+             (* lock probe: is m.mu held when AdjustPriority is entered (only asked for tracked interfaces) *)
+             let k = nat_of_int (arg tok) in
+             let c = (match w with A -> fst cs | B -> snd cs) in
+             if tracked c k then
+               probe := [(match w with A -> "a" | B -> "b") ^ (if v.fix_ia then ":mu=held" else ":mu=free")];
+             ignore (fe (FCoarse (EIf (w, k, String.sub tok 0 2 = "xa"))))
            | _ -> List.iter (fun e -> ignore (fe (FCoarse e))) (events_of_token tok));
-          out := show !s.f_p !ts :: !out) ops;
+          out := show_p !s.f_p !probe !ts :: !out) ops;
         print_endline (String.concat " " (List.rev !out)))
       with Failure m -> print_endline ("badcase " ^ m))
     | _ -> print_endline "badline") lines
